@@ -371,9 +371,10 @@ Section P.
     c_zones _ _ _ _ (fst (finish_init c)) = c_zones _ _ _ _ c /\ c_acs _ _ _ _ (fst (finish_init c)) = c_acs _ _ _ _ c /\
     In OStartHeartbeat (snd (finish_init c)) /\ In OInitialised (snd (finish_init c)).
   Proof.
-    unfold Core.finish_init. cbn [fst snd c_state c_initialised c_zones c_acs]. repeat split; try reflexivity.
-    - now left.
-    - right. apply in_or_app. right. now left.
+    unfold Core.finish_init. cbn [fst snd c_state c_initialised c_zones c_acs].
+    split; [reflexivity|]. split; [reflexivity|]. split; [reflexivity|]. split; [reflexivity|]. split.
+    - cbn. now left.
+    - cbn [app In]. right. apply in_or_app. right. now left.
   Qed.
 
   (* a console that stops answering: in any state short of CONNECTED, frames that are not the
@@ -402,15 +403,14 @@ Section P.
     induction l as [|s l IH]; intros c H ND; [reflexivity|]. cbn [Core.proc_zone_status].
     destruct (H s (or_introl eq_refl)) as [z [Fz Sz]]. rewrite Fz.
     unfold Core.update_zone. rewrite Sz, zs_eqb_refl.
+    cbn [map] in ND. apply NoDup_cons_iff in ND as [Hnot ND'].
     match goal with |- context [proc_zone_status ?c1 l] => set (c1' := c1) end.
     assert (G : snd (proc_zone_status c1' l) = []).
-    { apply IH.
-      - intros s' Hs'. destruct (H s' (or_intror Hs')) as [z' [Fz' Sz']].
-        inversion ND as [|? ? Hnot ND']; subst.
-        assert (zs_id s' <> zs_id s) by (intros E; apply Hnot; rewrite <- E; now apply in_map).
-        exists z'. split; [|exact Sz']. subst c1'. cbn [c_zones].
-        rewrite find_set_zone_other; [exact Fz'|]. cbn [z_id]. rewrite (find_zone_id _ _ _ Fz). exact H0.
-      - now inversion ND. }
+    { apply IH; [|exact ND'].
+      intros t Ht. destruct (H t (or_intror Ht)) as [z' [Fz' Sz']].
+      assert (Hne : zs_id t <> zs_id s) by (intros E; apply Hnot; rewrite <- E; now apply in_map).
+      exists z'. split; [|exact Sz']. subst c1'. cbn [c_zones].
+      rewrite find_set_zone_other; [exact Fz'|]. cbn [z_id]. rewrite (find_zone_id _ _ _ Fz). exact Hne. }
     destruct (proc_zone_status c1' l) as [c2 o2]. cbn [snd] in *. now rewrite G.
   Qed.
 End P.
